@@ -117,8 +117,11 @@ Pool == HandPool \o KeyPool
 \* custom configuration used by the checks: keys = {x-custom}, markers = {zeta}
 CustomKeys == {<<120, 45, 99, 117, 115, 116, 111, 109>>}
 CustomMarkers == {<<122, 101, 116, 97>>}
-CfgKinds == {"default", "custom-keys", "custom-markers"}
+\* "no-cookie-keys": the default lists without the header names cookie / set-cookie - cookies are then judged one by one, by their names
+CfgKinds == {"default", "custom-keys", "custom-markers", "no-cookie-keys"}
 Cfg(kind) == CASE kind = "custom-keys"    -> [keys |-> CustomKeys, markers |-> DefaultMarkers]
+               [] kind = "no-cookie-keys" -> [keys |-> DefaultKeys \ {<<99, 111, 111, 107, 105, 101>>, <<115, 101, 116, 45, 99, 111, 111, 107, 105, 101>>},
+                                              markers |-> DefaultMarkers]
                [] kind = "custom-markers" -> [keys |-> DefaultKeys, markers |-> CustomMarkers]
                [] OTHER                   -> [keys |-> DefaultKeys, markers |-> DefaultMarkers]
 
@@ -188,12 +191,20 @@ HNames == <<<<88, 45, 67, 117, 115, 116, 111, 109>>,
 ---------------------------------------------------------------------------
 (* the enumerated family: every (name, cfg) pair of the pool, and the abstract flow matrix route x sink x sanitize x
    (carrier sensitive?) x (carrier omitted by the reproduction command?) *)
-VARIABLES kind, nameIx, cfgKind, route, sink, sanitize, sens, omitted
-vars == <<kind, nameIx, cfgKind, route, sink, sanitize, sens, omitted>>
+(* a cookie travels inside a Cookie / Set-Cookie header among other cookies: its POSITION (first / middle / last of three) and the
+   separator spelling ("; " or ";") are dimensions of the carrier; the expectation does not depend on them *)
+Positions == {"first", "middle", "last"}
+Separators == {"semicolon-space", "semicolon"}
+VARIABLES kind, nameIx, cfgKind, route, sink, sanitize, sens, omitted, pos, sep
+vars == <<kind, nameIx, cfgKind, route, sink, sanitize, sens, omitted, pos, sep>>
 Init == \/ /\ kind = "name" /\ nameIx \in 1..Len(Pool) /\ cfgKind \in CfgKinds
-           /\ route = "-" /\ sink = "-" /\ sanitize = TRUE /\ sens = FALSE /\ omitted = FALSE
+           /\ route = "-" /\ sink = "-" /\ sanitize = TRUE /\ sens = FALSE /\ omitted = FALSE /\ pos = "-" /\ sep = "-"
+        \/ /\ kind = "cookie" /\ nameIx \in 1..Len(Pool) /\ cfgKind \in CfgKinds /\ route \in {"gen-cookie", "resp-set-cookie"}
+           /\ pos \in Positions /\ sep \in Separators
+           /\ sink = "-" /\ sanitize = TRUE /\ sens = FALSE /\ omitted = FALSE
         \/ /\ kind = "flow" /\ nameIx = 0 /\ cfgKind = "-"
            /\ route \in Routes /\ sink \in Sinks /\ sanitize \in BOOLEAN /\ sens \in BOOLEAN /\ omitted \in BOOLEAN
+           /\ pos = "-" /\ sep = "-"
 Next == UNCHANGED vars
 Spec == Init /\ [][Next]_vars
 
@@ -213,7 +224,12 @@ EveryDefaultKeySensitive == \A j \in 1..Len(KeyPool) : Sensitive(KeyPool[j], Cfg
 ASSUME DefaultsCoverStandardHeaders
 ASSUME EveryDefaultKeySensitive
 
-Export == IF kind = "name"
+(* cookie family: the expected outcome is SensCarrier of the route - a function of the name and the configuration only, the same
+   for every position and separator *)
+Export == IF kind = "cookie"
+          THEN PrintT(<<"COOKIE", ToJson([name |-> Pool[nameIx], cfg |-> cfgKind, route |-> route, pos |-> pos, sep |-> sep,
+                                           redacted |-> SensCarrier(route, Pool[nameIx], Cfg(cfgKind))])>>)
+          ELSE IF kind = "name"
           THEN PrintT(<<"NAME", ToJson([name |-> Pool[nameIx], cfg |-> cfgKind, sensitive |-> Sensitive(Pool[nameIx], Cfg(cfgKind)),
                                          omitted |-> Omitted(Pool[nameIx]), isDefaultKey |-> Pool[nameIx] \in DefaultKeys,
                                          carrier |-> [r \in Routes |-> SensCarrier(r, Pool[nameIx], Cfg(cfgKind))]])>>)
